@@ -79,6 +79,19 @@ def processLine (line : String) : String :=
       -- C03 / C04: a lease handed out and not settled is still held; a stale operation (expired or already used lease) changes nothing
       if nat j "grantsLostOrDoubled" != 0 then s!"PROP C03,C04 live-lease-wiped-by-a-stale-operation-or-message-granted-twice count={nat j "grantsLostOrDoubled"} {tag}"
       else "ok"
+    | "interposed" =>
+      -- C05 / C03 / C14: other requests served in the middle of an operator's by-filter requeue keep what they were told
+      if !(bool j "setupOK") || !(bool j "interposedOK") || !(bool j "opOK") then s!"DIVERGE concx interposed: scenario did not run as intended {tag}"
+      else if nat j "offeredEarly" != 0 then s!"PROP C05,C14 message-offered-before-its-nack-delay-after-an-overlapping-requeue-by-filter {tag}"
+      else if nat j "missingAfterDelay" != 0 then s!"PROP C05,C02 nacked-message-not-offered-after-its-delay-after-an-overlapping-requeue-by-filter {tag}"
+      else if nat j "freshLeaseAckFailed" != 0 then s!"PROP C03,C05,C14 live-lease-wiped-by-an-overlapping-requeue-by-filter {tag}"
+      else "ok"
+    | "churn" =>
+      -- C05 / C02: whatever was accepted and is queued and due is offered; after producer and consumer are done nothing is left
+      if nat j "leftQueuedAndDueButNeverOffered" != 0 || nat j "delivered" != nat j "accepted" then
+        s!"PROP C05,C02 accepted-message-queued-and-due-but-never-offered accepted={nat j "accepted"} delivered={nat j "delivered"} left={nat j "leftQueuedAndDueButNeverOffered"} {tag}"
+      else if nat j "accepted" == 0 then s!"DIVERGE concx churn: nothing was accepted {tag}"
+      else "ok"
     | "reload-raise-inflight" =>
       if !(bool j "reloadOK") || nat j "first" != 202 then s!"DIVERGE concx reload-raise-inflight: scenario did not run as intended {tag}"
       else if nat j "replay" == 202 then s!"PROP C09 replay-accepted-after-a-request-served-during-a-tolerance-raising-reload {tag}"
